@@ -328,26 +328,33 @@ static ref_prev_t h15_prev (MIR_context_t ctx) {
 #if H_PREV_GROUP == 0
   (void) ctx;
   return RP_NONE;
-#elif H_PREV_GROUP == 1
-  /* The insn before the branch is a PLACEHOLDER node that carries only an opcode (no operands; a typed static object):
-     the adjacency rule reads nothing but prev_insn->code, and a second full 3-operand insn on the heap made CBMC run out
-     of memory (12 GB).  Real overflow insns with operands are covered by their own per-opcode obligations. */
+#else
+  /* The overflow insn before the branch is a PLACEHOLDER node that carries only an opcode (no operands; a typed static
+     object): the adjacency rule reads nothing but prev_insn->code of it, and further full 3-operand insns on the heap made
+     CBMC run out of memory (> 29 GB with addo; mov; bo all on the heap).  Real overflow insns with operands are covered by
+     their own per-opcode obligations.  Group 2 puts a REAL `mov b, <a | 0>` (created through MIR_new_insn_arr) between
+     the placeholder and the branch: "separated only by stores and reg moves". */
   {
     static struct MIR_insn h15_prev_obj;
     static const MIR_insn_code_t codes[8] = {MIR_ADDO, MIR_ADDOS, MIR_SUBO, MIR_SUBOS, MIR_MULO, MIR_MULOS, MIR_UMULO, MIR_UMULOS};
     unsigned sel = (unsigned) nd_below (10);
+    ref_prev_t res;
     h15_prev_obj.data = NULL;
     h15_prev_obj.nops = 0;
     h15_prev_obj.code = sel < 8 ? codes[sel] : sel == 8 ? MIR_ADD : MIR_INVALID_INSN;
     MIR_append_insn (ctx, h15_func_item, &h15_prev_obj);
-    return sel < 4 ? RP_OVF : sel < 6 ? RP_MULO : sel < 8 ? RP_UMULO : RP_OTHER;
-  }
-#else
-  switch ((unsigned) nd_below (4)) {
-  case 0: h15_add3 (ctx, MIR_SUBOS); h15_mov (ctx, MIR_new_reg_op (ctx, H_REG_A)); return RP_OVF_MOVS;
-  case 1: h15_add3 (ctx, MIR_ADDO); h15_mov (ctx, MIR_new_int_op (ctx, 0)); return RP_OVF_THEN_OTHER; /* mov of an immediate is not a reg move */
-  case 2: h15_add3 (ctx, MIR_MULOS); h15_mov (ctx, MIR_new_reg_op (ctx, H_REG_A)); return RP_MULO;
-  default: h15_add3 (ctx, MIR_UMULO); h15_mov (ctx, MIR_new_reg_op (ctx, H_REG_A)); return RP_UMULO;
+    res = sel < 4 ? RP_OVF : sel < 6 ? RP_MULO : sel < 8 ? RP_UMULO : RP_OTHER;
+#if H_PREV_GROUP == 2
+    {
+      int reg_move = nd_bool (); /* one call site: one heap insn whatever the choice */
+      h15_mov (ctx, reg_move ? MIR_new_reg_op (ctx, H_REG_A) : MIR_new_int_op (ctx, 0));
+      if (reg_move) { /* a register move keeps the overflow insn adjacent */
+        if (res == RP_OVF) res = RP_OVF_MOVS;
+      } else if (res != RP_OTHER) /* a move of an immediate is not a register move */
+        res = RP_OVF_THEN_OTHER;
+    }
+#endif
+    return res;
   }
 #endif
 #else
